@@ -137,13 +137,15 @@ void h_rpc_batch(void)
 	cJSON arr, item[3];
 	unsigned n = nondet_uint();
 #ifndef RPC_BATCH_MAX
-#define RPC_BATCH_MAX 2
+#define RPC_BATCH_MAX 3
 #endif
 	__CPROVER_assume(n <= RPC_BATCH_MAX);
 	bool isobj[3];
+	static cJSON mnode[3];
 	for (unsigned i = 0; i < 3; i++) {
-		bool a, b, c, d;
-		build_request(&item[i], i, &a, &b, &c, &d);
+		/* each member is the minimal request {"method":"info"} (no id) or not an object at all */
+		mnode[i].type = cJSON_String; mnode[i].valuestring = (char *)"info"; mnode[i].string = (char *)"method"; mnode[i].next = NULL; mnode[i].child = NULL;
+		item[i].type = cJSON_Object; item[i].child = &mnode[i]; item[i].string = NULL; item[i].valuestring = NULL; item[i].prev = NULL;
 		isobj[i] = nondet_bool();
 		if (!isobj[i]) item[i].type = cJSON_Number;
 		item[i].next = i + 1 < n ? &item[i + 1] : NULL;
